@@ -201,18 +201,28 @@ Proof.
     destruct o1; [rewrite <- E1; eapply IH; exact H | inversion H; subst; exact E1 ..].
 Qed.
 
-Lemma notify_slot_slots s rep cons c o c' :
-  notify_slot s rep cons c = (o, c') -> c_slots c' = c_slots c.
+Lemma notify_slot_gen_slots b s rep cons c o c' :
+  notify_slot_gen b s rep cons c = (o, c') -> c_slots c' = c_slots c.
 Proof.
-  unfold notify_slot. destruct (send (s_reply s) rep c) as [o1 c1] eqn:E1.
-  pose proof (send_slots E1) as H1.
-  destruct o1.
-  - destruct (send_all (s_consumers s) cons c1) as [o2 c2] eqn:E2.
-    pose proof (send_all_slots E2) as H2.
-    destruct o2; intro H; inversion H; subst; cbn; congruence.
-  - intro H; inversion H; subst; cbn; exact H1.
-  - intro H; inversion H; subst; cbn; exact H1.
+  unfold notify_slot_gen. destruct b.
+  - destruct (send_all (s_consumers s) cons c) as [o1 c1] eqn:E1.
+    pose proof (send_all_slots E1) as H1.
+    destruct o1.
+    + destruct (send (s_reply s) rep c1) as [o2 c2] eqn:E2. pose proof (send_slots E2) as H2.
+      intro H; inversion H; subst; cbn; congruence.
+    + intro H; inversion H; subst; cbn; exact H1.
+    + intro H; inversion H; subst; cbn; exact H1.
+  - destruct (send (s_reply s) rep c) as [o1 c1] eqn:E1.
+    pose proof (send_slots E1) as H1.
+    destruct o1.
+    + destruct (send_all (s_consumers s) cons c1) as [o2 c2] eqn:E2.
+      pose proof (send_all_slots E2) as H2.
+      intro H; inversion H; subst; cbn; congruence.
+    + intro H; inversion H; subst; cbn; exact H1.
+    + intro H; inversion H; subst; cbn; exact H1.
 Qed.
+Definition notify_slot_slots s rep cons c o c' := @notify_slot_gen_slots true s rep cons c o c'.
+Definition notify_slot_cf_slots s rep cons c o c' := @notify_slot_gen_slots false s rep cons c o c'.
 
 Lemma client_exception_slots code text c o c' :
   client_exception code text c = (o, c') -> c_slots c' = c_slots c.
@@ -259,7 +269,7 @@ Proof.
   - (* channel close-ok *)
     destruct (alookup m (c_slots c)) as [sl|]; [|intro H; inversion H; subst; apply slots_off_refl].
     intro H. eapply slots_off_trans; [apply remove_slot_off|].
-    apply slots_off_eq. eapply notify_slot_slots; exact H.
+    apply slots_off_eq. eapply notify_slot_cf_slots; exact H.
   - (* consume-ok *)
     destruct (alookup m (c_slots c)) as [sl|]; [|intro H; inversion H; subst; apply slots_off_refl].
     destruct (lookup_tag tag (s_consumers sl)); [intro H; inversion H; subst; apply slots_off_refl|].
@@ -277,17 +287,19 @@ Proof.
     + destruct nowait; intro H; inversion H; subst; apply slots_off_eq; reflexivity.
   - (* cancel-ok *)
     destruct (alookup m (c_slots c)) as [sl|]; [|intro H; inversion H; subst; apply slots_off_refl].
-    destruct (send (s_reply sl) _ _) as [o1 c1] eqn:E. pose proof (send_slots E) as H1.
-    assert (Hoff : slots_off m c c1).
-    { eapply slots_off_trans; [apply set_slot_off|]. apply slots_off_eq. exact H1. }
-    destruct o1.
-    + destruct (lookup_tag tag (s_consumers sl)) as [q|].
-      * destruct (send q IClientCancelled c1) as [o2 c2] eqn:E2. pose proof (send_slots E2) as H2.
+    destruct (lookup_tag tag (s_consumers sl)) as [q|].
+    + destruct (send q IClientCancelled _) as [o1 c1] eqn:E. pose proof (send_slots E) as H1.
+      assert (Hoff : slots_off m c (set_qs c1 (drop_tx q (c_qs c1)))).
+      { eapply slots_off_trans; [apply set_slot_off|]. apply slots_off_eq. exact H1. }
+      destruct o1.
+      * destruct (send (s_reply sl) _ _) as [o2 c2] eqn:E2. pose proof (send_slots E2) as H2.
         intro H; inversion H; subst.
         eapply slots_off_trans; [exact Hoff|]. apply slots_off_eq. exact H2.
       * intro H; inversion H; subst. exact Hoff.
-    + intro H; inversion H; subst. eapply slots_off_trans; [exact Hoff|]. apply slots_off_eq; reflexivity.
-    + intro H; inversion H; subst. eapply slots_off_trans; [exact Hoff|]. apply slots_off_eq; reflexivity.
+      * intro H; inversion H; subst. exact Hoff.
+    + destruct (send (s_reply sl) _ _) as [o2 c2] eqn:E2. pose proof (send_slots E2) as H2.
+      intro H; inversion H; subst.
+      eapply slots_off_trans; [apply set_slot_off|]. apply slots_off_eq. exact H2.
   - destruct (alookup m (c_slots c)) as [sl|]; [|intro H; inversion H; subst; apply slots_off_refl].
     apply collect_off.
   - destruct (alookup m (c_slots c)) as [sl|]; [|intro H; inversion H; subst; apply slots_off_refl].
